@@ -339,7 +339,15 @@ func (x *Exec) staticCall(st *State, fr *Frame, ce *ast.CallExpr, f *types.Func,
 	}
 	// no contract: inline the body when it is available
 	if decl, pkg := x.ld.findDecl(f); decl != nil && decl.Body != nil {
-		x.inlineFunc(st, fr, ce, f, decl, pkg, recv, args, pc, k)
+		x.inlineFunc(st, fr, ce, f, decl, pkg, recv, args, pc, func(s2 *State, res []Term) {
+			// results carry the types of the instantiated signature at this call site
+			for i := range res {
+				if i < csig.Results().Len() {
+					res[i].Ty = csig.Results().At(i).Type()
+				}
+			}
+			k(s2, res)
+		})
 		return
 	}
 	x.unsupported(ce, "call of %s: no contract and no body", f.FullName())
@@ -348,11 +356,13 @@ func (x *Exec) staticCall(st *State, fr *Frame, ce *ast.CallExpr, f *types.Func,
 // typeSubst: callee type parameter name -> sort at this call.
 func (x *Exec) typeSubst(f *types.Func, ce *ast.CallExpr, recvT types.Type) map[string]string {
 	sub := map[string]string{}
+	x.lastTypeArgs = map[string]types.Type{}
 	osig := f.Origin().Type().(*types.Signature)
 	if id := calleeIdent(ast.Unparen(ce.Fun)); id != nil {
 		if inst, ok := x.info.Instances[id]; ok && osig.TypeParams() != nil {
 			for i := 0; i < osig.TypeParams().Len() && i < inst.TypeArgs.Len(); i++ {
 				sub[osig.TypeParams().At(i).Obj().Name()] = x.sortOf(inst.TypeArgs.At(i))
+				x.lastTypeArgs[osig.TypeParams().At(i).Obj().Name()] = inst.TypeArgs.At(i)
 			}
 		}
 	}
@@ -384,7 +394,8 @@ func (x *Exec) typeSubst(f *types.Func, ce *ast.CallExpr, recvT types.Type) map[
 func (x *Exec) byContract(st *State, fr *Frame, n ast.Node, pc *ProcContract, osig, csig *types.Signature, recv Term, args []Term,
 	tsub map[string]string, calleePkg string, k func(*State, []Term)) {
 
-	env := &CEnv{names: map[string]Term{}, st: st, old: st, tsub: tsub}
+	env := &CEnv{names: map[string]Term{}, st: st, old: st, tsub: tsub, ttypes: x.lastTypeArgs}
+	x.lastTypeArgs = nil
 	for k2, v := range x.extraNames {
 		env.names[k2] = v
 	}
@@ -821,20 +832,29 @@ func (x *Exec) implOf(t types.Type) *implInfo {
 		return nil
 	}
 	var out *implInfo
-	for key, ic := range cf.Impls {
+	for _, key := range sortedKeys(cf.Impls) {
+		ic := cf.Impls[key]
 		tn := strings.TrimPrefix(ic.Type, "*")
 		if tn != n.Origin().Obj().Name() || strings.HasPrefix(ic.Type, "*") != ptr {
 			continue
 		}
-		_ = key
 		// resolve the interface, instantiated with the type arguments of n positionally
 		in := x.resolveIfaceFor(n, ic.Iface)
 		if in == nil {
 			continue
 		}
 		if out == nil {
-			out = &implInfo{ic: ic, named: n, ptr: ptr}
+			// one combined view of all `implements` blocks of the type
+			merged := &ImplContract{Type: ic.Type, Iface: ic.Iface, Models: map[string]Clause{}, MParams: map[string][]string{}, Opts: ic.Opts, Props: ic.Props}
+			out = &implInfo{ic: merged, named: n, ptr: ptr}
 		}
+		for k, v := range ic.Models {
+			out.ic.Models[k] = v
+		}
+		for k, v := range ic.MParams {
+			out.ic.MParams[k] = v
+		}
+		out.ic.ObjInv = append(out.ic.ObjInv, ic.ObjInv...)
 		out.ifaces = append(out.ifaces, in)
 	}
 	return out
@@ -1129,17 +1149,25 @@ func (x *Exec) inlineFunc(st *State, fr *Frame, ce *ast.CallExpr, f *types.Func,
 	x.pkg, x.info = pkg, pkg.Info
 	// callee type parameters are bound to the sorts of the type arguments
 	sub := x.typeSubst2(oldI, f, ce, recv.Ty)
+	oldObj := x.tenvObj
 	if len(sub) > 0 {
-		nt := map[string]string{}
-		for k2, v := range oldTenv {
-			nt[k2] = v
+		no := map[*types.TypeParam]string{}
+		for k2, v := range oldObj {
+			no[k2] = v
 		}
-		for k2, v := range sub {
-			nt[k2] = v
+		osig0 := f.Origin().Type().(*types.Signature)
+		bind := func(l *types.TypeParamList) {
+			for i := 0; l != nil && i < l.Len(); i++ {
+				if so, ok := sub[l.At(i).Obj().Name()]; ok {
+					no[l.At(i)] = so
+				}
+			}
 		}
-		x.tenv = nt
+		bind(osig0.TypeParams())
+		bind(osig0.RecvTypeParams())
+		x.tenvObj = no
 	}
-	restore := func() { x.pkg, x.info, x.tenv = oldP, oldI, oldTenv }
+	restore := func() { x.pkg, x.info, x.tenv, x.tenvObj = oldP, oldI, oldTenv, oldObj }
 	sig := f.Origin().Type().(*types.Signature)
 	in := st
 	if sig.Recv() != nil && decl.Recv != nil && len(decl.Recv.List) > 0 && len(decl.Recv.List[0].Names) > 0 {
@@ -1159,7 +1187,7 @@ func (x *Exec) inlineFunc(st *State, fr *Frame, ce *ast.CallExpr, f *types.Func,
 		a.Ty = sig.Params().At(i).Type()
 		in.vars[sig.Params().At(i)] = a
 	}
-	nfr := &Frame{proc: pc, sig: sig, depth: fr.depth + 1, entry: in.clone(), env: fr.env}
+	nfr := &Frame{proc: pc, sig: sig, depth: fr.depth + 1, entry: in.clone(), env: fr.env, parent: fr}
 	for i := 0; i < sig.Results().Len(); i++ {
 		r := sig.Results().At(i)
 		if r.Name() != "" {
@@ -1204,7 +1232,7 @@ func (x *Exec) inlineLit(st *State, fr *Frame, fl *ast.FuncLit, args []Term, k f
 	if fr.proc != nil {
 		sub = fr.proc.Subs[x.litOrd[fl]]
 	}
-	nfr := &Frame{proc: sub, sig: sig, depth: fr.depth + 1, entry: st.clone(), env: fr.env}
+	nfr := &Frame{proc: sub, sig: sig, depth: fr.depth + 1, entry: st.clone(), env: fr.env, parent: fr}
 	if sub == nil {
 		nfr.proc = fr.proc // loops inside an inlined literal are keyed in the enclosing procedure
 	}
@@ -1397,12 +1425,26 @@ func (x *Exec) dynamicCall(st *State, fr *Frame, ce *ast.CallExpr, k func(*State
 		if pc, _ := x.db.lookupFunc(kf.f); pc != nil {
 			sub := map[string]string{}
 			osig := kf.f.Origin().Type().(*types.Signature)
+			x.lastTypeArgs = map[string]types.Type{}
 			if kf.targs != nil && osig.TypeParams() != nil {
 				for i := 0; i < osig.TypeParams().Len() && i < kf.targs.Len(); i++ {
 					sub[osig.TypeParams().At(i).Obj().Name()] = x.sortOf(kf.targs.At(i))
+					x.lastTypeArgs[osig.TypeParams().At(i).Obj().Name()] = kf.targs.At(i)
 				}
 			}
-			x.byContract(st, fr, ce, pc, osig, sig, Term{}, args, sub, kf.f.Pkg().Path(), k)
+			csig2 := sig
+			if kf.targs != nil {
+				var ta []types.Type
+				for i := 0; i < kf.targs.Len(); i++ {
+					ta = append(ta, kf.targs.At(i))
+				}
+				if inst, err := types.Instantiate(nil, kf.f.Type(), ta, false); err == nil {
+					if is, ok := inst.(*types.Signature); ok {
+						csig2 = is
+					}
+				}
+			}
+			x.byContract(st, fr, ce, pc, osig, csig2, Term{}, args, sub, kf.f.Pkg().Path(), k)
 			return
 		}
 	}
